@@ -64,6 +64,14 @@ def make_geometry(recipe):
         V = np.round(r.uniform(-1, 1, (recipe.get("n", 5), 3)), 4)
         g = trimesh.PointCloud(vertices=V.copy())
         rec = {"kind": "points", "V": V.copy(), "F": None}
+    elif kind == "path2d":
+        # a planar drawing placed in space by its node (what a DXF loaded into a scene is)
+        from trimesh.path.entities import Line
+
+        r = np.random.RandomState(recipe["salt"] % (2**32))
+        V2 = np.array([[0, 0], [1.5, 0], [1.5, 1], [0, 1]], dtype=float) + r.uniform(-0.1, 0.1, (4, 2))
+        g = trimesh.path.Path2D(entities=[Line([0, 1, 2, 3, 0])], vertices=V2.copy(), process=False)
+        rec = {"kind": "path", "V": np.column_stack([V2, np.zeros(4)]), "F": None, "dim": 2}
     else:
         from trimesh.path.entities import Line
 
@@ -174,7 +182,7 @@ class C10(World):
             "w_derived": swarm_weights(rng, DERIVED, keep_p=0.55),
             "n_build": rng.choice([1, 2, 3, 4, 5]),
             "n_steps": rng.choice([1, 2, 2, 3, 4, 6]),
-            "kinds": rng.choice([["mesh"], ["mesh"], ["mesh", "points"], ["mesh", "points", "path"]]),
+            "kinds": rng.choice([["mesh"], ["mesh"], ["mesh", "points"], ["mesh", "points", "path"], ["mesh", "path2d"], ["mesh", "points", "path", "path2d"]]),
             "units": rng.choice([None, "in", "mm"]),
             "p_derived": rng.choice([0.2, 0.5, 0.8]),
         }
@@ -235,6 +243,7 @@ class C10(World):
             if kind == "convert_units":
                 op["to"] = rng.choice(["mm", "in", "feet"])
             if kind == "add_scene":
+                op["rezero_other"] = rng.random() < 0.3
                 op["other"] = [{"geom": self._gen_geom(rng, cfg), "gname": rng.choice(["g0", "g1", "y0", "g0_1", "g1_1"]), "node": rng.choice(["n0", "n1", "m0", "m1", "n0_1", "n1_1", "n0_2", "m0_1"]), "matrix": mx.make(rng, "rigid").tolist()} for _ in range(rng.randint(1, 3))]
             ops.append(op)
         for _ in range(2):
@@ -269,7 +278,12 @@ class C10(World):
         for n, a, b in pairs:
             if a[0] != b[0]:
                 ctx.fail(oracle, what + "-kind", f"node {n}: {a[0]} != {b[0]}")
-            bad = same(a[1], b[1], 1e-9, f"{n}.vertices")
+            if a[0] == "path" and np.shape(a[1]) == np.shape(b[1]) and len(a[1]):
+                # a drawing may renumber its vertices (Path2D.to_3D does): the placed corner set is what counts
+                ka, kb = np.lexsort(np.round(a[1], 7).T[::-1]), np.lexsort(np.round(b[1], 7).T[::-1])
+                bad = same(a[1][ka], b[1][kb], 1e-9, f"{n}.vertices")
+            else:
+                bad = same(a[1], b[1], 1e-9, f"{n}.vertices")
             if not bad and a[0] == "mesh":
                 bad = same(a[1][a[2]] if len(a[2]) else np.zeros((0, 3, 3)), b[1][b[2]] if len(b[2]) else np.zeros((0, 3, 3)), 1e-9, f"{n}.triangles")
             if bad:
@@ -292,9 +306,12 @@ class C10(World):
             kind = type(g).__name__
             kind = "mesh" if kind == "Trimesh" else ("points" if kind == "PointCloud" else "path")
             V = np.array(g.vertices, dtype=float)
-            if V.ndim == 2 and V.shape[1] == 2:
+            planar = V.ndim == 2 and V.shape[1] == 2
+            if planar:
                 V = np.column_stack([V, np.zeros(len(V))])
             m.geoms[name] = {"kind": kind, "V": V, "F": np.array(g.faces) if kind == "mesh" else None, "units": g.units}
+            if planar:
+                m.geoms[name]["dim"] = 2
         return m
 
     def snapshot(self, scene):
@@ -404,7 +421,13 @@ class C10(World):
                 if bad:
                     fail(bad)
         elif obs == "area":
-            bad = same(scene.area, tri_area(T), 1e-9, "area")
+            # a planar drawing has an area too: that of its (single, closed, four-cornered) region as placed
+            planar = 0.0
+            for n, p in pl.items():
+                if model.geoms[p[3]].get("dim") == 2:
+                    Q = p[1]
+                    planar += 0.5 * float(np.linalg.norm(sum(np.cross(Q[i], Q[(i + 1) % len(Q)]) for i in range(len(Q)))))
+            bad = same(scene.area, tri_area(T) + planar, 1e-9, "area")
             if bad:
                 if self._instance_scaled(model) and ctx.is_known("C10-area-volume-ignore-instance-scale"):
                     self._finding_unscaled(scene, model, "area", ctx, fail)
@@ -467,7 +490,12 @@ class C10(World):
                 if n not in pl:
                     fail(f"dumped geometry for unknown node {n}")
                 V = np.asarray(g.vertices, dtype=float)
-                bad = same(V, pl[n][1], 1e-9, f"dump[{n}].vertices")
+                if V.ndim == 2 and V.shape[1] == 2:
+                    V = np.column_stack([V, np.zeros(len(V))])  # a drawing that stays in its plane is dumped as a planar drawing
+                W = pl[n][1]
+                if pl[n][0] == "path" and V.shape == W.shape and len(V):
+                    V, W = V[np.lexsort(np.round(V, 7).T[::-1])], W[np.lexsort(np.round(W, 7).T[::-1])]
+                bad = same(V, W, 1e-9, f"dump[{n}].vertices")
                 if not bad and pl[n][0] == "mesh":
                     bad = same(V[np.asarray(g.faces)] if len(g.faces) else np.zeros((0, 3, 3)), pl[n][1][pl[n][2]] if len(pl[n][2]) else np.zeros((0, 3, 3)), 1e-9, f"dump[{n}].triangles")
                 if bad:
@@ -586,8 +614,8 @@ class C10(World):
             name = names[op["i"] % len(names)]
             rec = model.geoms[name]
             g = scene.geometry[name]
-            if len(rec["V"]) == 0:
-                raise Inapplicable()
+            if len(rec["V"]) == 0 or rec.get("dim") == 2:
+                raise Inapplicable()  # (planar drawings are placed, scaled and combined; their vertex edits are C14's business)
             route = op["route"]
             if route == "iadd":
                 g.vertices[:] += op["d"]
@@ -623,6 +651,8 @@ class C10(World):
             scene.add_geometry(g, node_name=node, geom_name=name, parent_node_name=parent, transform=np.array(op["matrix"]))
             rec = model.geoms[src_name]
             model.geoms[name] = {"kind": rec["kind"], "V": rec["V"].copy(), "F": None if rec["F"] is None else rec["F"].copy(), "units": rec.get("units")}
+            if rec.get("dim"):
+                model.geoms[name]["dim"] = rec["dim"]
             f.update(node, parent, np.array(op["matrix"]), name)
             return scene, model
         if k == "geom_edit_all":
@@ -632,7 +662,7 @@ class C10(World):
             for name in sorted(model.geoms):
                 rec = model.geoms[name]
                 g = scene.geometry[name]
-                if len(rec["V"]) == 0:
+                if len(rec["V"]) == 0 or rec.get("dim") == 2:
                     continue
                 if op["route"] in ("iadd", "item", "apply_translation"):
                     g.apply_translation([op["d"], 0, -op["d"]])
@@ -770,6 +800,13 @@ class C10(World):
                     om.geoms[item["gname"]] = rec
                     om.forest.update(item["node"], "world", np.array(item["matrix"]), item["gname"])
                 omodel_pl = om.placements()
+                if op.get("rezero_other") and omodel_pl:
+                    # the right operand was re-zeroed first (its base frame is then an offset frame above its 'world')
+                    allp = np.vstack([p[1] for p in omodel_pl.values()])
+                    c = (allp.min(axis=0) + allp.max(axis=0)) / 2.0
+                    other.rezero()
+                    if not np.allclose(c, 0.0):
+                        omodel_pl = {n: (p[0], p[1] - c, p[2], p[3]) for n, p in omodel_pl.items()}
             other_before = self.snapshot(other)
             result = scene + other
             want = {("a", n): p for n, p in src.items()}
